@@ -37,7 +37,7 @@ man = {
                  "kind_free_text": "home-built verification-condition generator for Go (go/packages + go/ssa, bit-vector semantics, typed heaps, contracts as comments) with z3 4.8.12 / z3 5.1.0 / cvc5 1.0 as back ends and counterexample replay through go test -overlay"}],
     "checks": checks,
     "not_applicable": na,
-    "notes": "See DESIGN.md. Known findings and fixes: known_findings.json. Seeded changes used to test the checks: seeded/.",
+    "notes": "See DESIGN.md (section 0 is the status as built). Known findings and fixes: known_findings.json (demonstrations of the concurrency findings: findings_demo/). Seeded changes used to test the checks: seeded/ (RESULTS.md); must-fail self-test: selftest/. Hook commits ('verif hook:') touch only files they add themselves, <pkg>/zz_contracts_verif.go (comment-only, build tag verif; later hook commits edit those files); no line of the repository's own code is touched by a hook commit. Repairs of defects are the separate 'fix:' commits.",
 }
 json.dump(man, open('/verif/MANIFEST.json','w'), indent=1)
 print(len(checks), "claimed;", len(na), "not applicable")
